@@ -503,8 +503,45 @@ func runCase(run *evid.Run, idx int) *caseResult {
 				}
 			}
 			if len(heads) > 0 {
-				kinds["delete-ref"] = true
 				h := heads[c.r.Intn(len(heads))]
+				if c.r.Intn(3) > 0 {
+					// one push that deletes a ref and updates others: the pre-push hook gets one stdin line per
+					// refspec, and the deletion line (local sha all zeros) may come first, in the middle or last
+					kinds["delete-ref-with-updates"] = true
+					var others []string
+					for _, b := range c.g.Branches {
+						if b != h {
+							others = append(others, b)
+						}
+					}
+					specs := []string{":" + h}
+					if len(others) > 0 {
+						c.r.Shuffle(len(others), func(i, j int) { others[i], others[j] = others[j], others[i] })
+						n := 1 + c.r.Intn(2)
+						if n > len(others) {
+							n = len(others)
+						}
+						for _, b := range others[:n] {
+							c.newCommit(b)
+							specs = append(specs, b)
+						}
+						switch c.r.Intn(3) {
+						case 1: // deletion last
+							specs = append(specs[1:], specs[0])
+						case 2: // deletion in the middle
+							if len(specs) > 2 {
+								specs[0], specs[1] = specs[1], specs[0]
+							}
+						}
+					}
+					c.run.Count("pushes_deleting_and_updating_refs", 1)
+					if c.git("push-delete-and-update", append([]string{"push", "origin"}, specs...)...).OK() {
+						res.pushes++
+						c.invariant(c.rmodel, c.remoteCommits(), "git push origin "+strings.Join(specs, " "))
+					}
+					break
+				}
+				kinds["delete-ref"] = true
 				if c.git("push-delete", "push", "origin", ":"+h).OK() {
 					c.invariant(c.rmodel, c.remoteCommits(), "git push origin :"+h)
 				}
